@@ -875,3 +875,251 @@ class C14(NlpCheck):
                 self.violation("a row of the scaled problem (atom %s) is not a row of the unscaled problem divided by a declared positive scale (or rows are left over: %d)" %
                                (None if bad is None else float(bad), usedB.count(False)), {"desc": dA, "x": xA, "p": pv}, {"kind": "scaled-twin", "what": "rows", "method": dA['method']['kind']})
                 return
+
+
+def parse_samples(lines):
+    ts, vs = [], []
+    for l in lines:
+        t = l.split()
+        if t[0] == 's':
+            ts.append(Mo.frac(t[1]))
+            vs.append(Mo.frac(t[2]))
+    return ts, vs
+
+
+def sample_atoms(desc, grid, for_refine=False, for_sampler=False):
+    s = G.symbols(desc)
+    if for_sampler:
+        return s['x'] + s['u'] + s['z'] + [('t',)]
+    at = s['x'] + s['u'] + [('t',)] + s['p'] + s['pc'] + s['pcp'] + s['v'] + s['vc'] + s['vcp'] + [('T',), ('t0',)]
+    if desc['method']['kind'] == 'dc':
+        at = at + s['z']
+    if grid != 'roots' and not for_refine and desc['nq']:
+        at = at + [('xq', 0)]
+    if not for_refine:
+        at = at + [('DT',), ('DTc',)]
+    return at
+
+
+class SampleCheck(NlpCheck):
+    """shared machinery: compare ocp.sample(...) (walked exactly) with the model's sample lists"""
+
+    def sample_compare(self, desc, b, exprs_by_grid, npoints=2):
+        """exprs_by_grid: list of (gridname, kwargs, model_cmd, expr) ; returns error message or None"""
+        import casadi as ca
+        outs = []
+        with B.quiet():
+            for gname, kw, cmd, e in exprs_by_grid:
+                ce = Mo.E.to_casadi(e, b.sym_base)
+                ts, vs = b.ocp.sample(ce, grid=gname, **kw)
+                outs += [ca.vec(ca.MX(ts)), ca.vec(ca.MX(vs))]
+        try:
+            F = ca.Function('samp', [b.opti.x, b.opti.p], outs)
+        except RuntimeError as ex:
+            if 'are free' in str(ex):
+                return None        # inactive decision variable (not in f or g): not part of opti.x (CasADi)
+            raise
+        W = Walker(F)
+        dl = Mo.desc_lines(desc)
+        for _ in range(npoints):
+            xv, pv, fv = En.rand_point(self.rng, b)
+            try:
+                res = W([xv, pv])
+                phys = B.eval_phys(b, xv, pv, fv)
+            except (ZeroDivisionError, OverflowError):
+                continue
+            self.driver.send(dl)
+            self.driver.send(Mo.point_lines(desc, phys))
+            for idx, (gname, kw, cmd, e) in enumerate(exprs_by_grid):
+                mts, mvs = parse_samples(self.driver.run(cmd + " " + Mo.E.to_tokens(e)))
+                its, ivs = res[2 * idx], res[2 * idx + 1]
+                label = "sample(e, grid=%r%s)" % (gname, "".join(", %s=%r" % kv for kv in kw.items()))
+                if len(its) != len(mts):
+                    return "%s returns %d time points, the grid has %d" % (label, len(its), len(mts))
+                if len(ivs) != len(mvs):
+                    return "%s returns %d values for %d time points" % (label, len(ivs), len(mvs))
+                for i, (a, (v, mg)) in enumerate(zip(mts, its)):
+                    if not close(a, v, max(mg, 1.0)):
+                        return "%s: time[%d] = %s, expected %s" % (label, i, float(v), float(a))
+                for i, (a, (v, mg)) in enumerate(zip(mvs, ivs)):
+                    if not close(a, v, max(mg, 1.0)):
+                        return "%s: value[%d] = %s but e at the sampled ingredients of that point is %s (e = %s)" % (label, i, float(v), float(a), Mo.E.to_tokens(e))
+                self.count("sampled:" + gname + ("+refine" if kw else ""))
+        return None
+
+
+@register
+class C07(SampleCheck):
+    pid = "C07"
+    slices = ["symbolic-sampling", "value-of-non-signals", "numeric-readback-and-shapes", "DM2numpy-exhaustive"]
+
+    def explanation(self):
+        return ("theorems: sample on the control/integrator/roots grids is the list of e evaluated in the environment of each grid "
+                "point, times are the points' times; sampling commutes with +,-,*,/ and primitive symbols sample to the environment's "
+                "components; value() evaluates in the global environment; DM2numpy index arithmetic. correspondence: ocp.sample "
+                "(walked exactly) vs model for generated expressions on control, control-, -control, integrator, integrator_roots; "
+                "ocp.value vs model; sol.sample/sol.value on a solve_limited solution vs the symbolic map at the solver's vector, "
+                "with matrix/row/column shapes; DM2numpy vs the index formula for all shapes up to 4x4, n<=6")
+
+    def correspondence(self):
+        self.symbolic_slice()
+        self.value_slice()
+        self.readback_slice()
+        self.dm2numpy_slice()
+
+    def gen(self, extra=None):
+        prof = {'methods': ALLM + [('ss', 'euler')], 'grids': FIXED_GRIDS + ['free', 'uniform_locT'], 'horizon': HORIZ,
+                'obj_kinds': ['at_tf', 'integral'], 'ncons': (0, 1), 'features': {'qstate': 0.5, 'dae': 0.4, 'pc': 0.6, 'pcp': 0.6, 'vc': 0.5, 'vcp': 0.5},
+                'Ns': [1, 2, 3, 4], 'Ms': [1, 2, 3], 'degrees': [1, 2, 3]}
+        if extra:
+            prof.update(extra)
+        return G.gen_case(self.rng, prof)
+
+    def symbolic_slice(self):
+        n = 30 if self.tier == 'quick' else 400
+        for _ in range(n):
+            desc = self.gen()
+            try:
+                b = B.build(desc)
+            except Exception as e:
+                self.slice_ok["symbolic-sampling"] = False
+                self.violation("rockit raised on a generated case: %r" % (e,), {"desc": desc}, {"kind": "exception"})
+                return
+            jobs = []
+            for gname, kw, cmd in (('control', {}, 'sample control 1 1'), ('control-', {}, 'sample control 1 0'), ('-control', {}, 'sample control 1 0'),
+                                   ('integrator', {}, 'sample integrator')) + ((('integrator_roots', {}, 'sample roots'),) if desc['method']['kind'] == 'dc' else ()):
+                at = sample_atoms(desc, 'roots' if gname == 'integrator_roots' else gname)
+                for _k in range(2):
+                    jobs.append((gname, kw, cmd, G.poly(self.rng, at, (1, 3), 2)))
+            if not desc.get('next'):
+                r_ = self.rng.randint(1, 4)
+                jobs.append(('integrator', {'refine': r_}, 'sample fine %d' % r_, G.poly(self.rng, sample_atoms(desc, 'integrator', for_refine=True), (1, 3), 2)))
+            try:
+                msg = self.sample_compare(desc, b, jobs)
+            except Exception as e:
+                msg = "sampling raised %s: %s" % (type(e).__name__, str(e)[:300])
+            self.record_case(desc, True, {"method": desc['method'], "sampled": [(j[0], Mo.E.to_tokens(j[3])) for j in jobs[:3]]})
+            if msg:
+                self.slice_ok["symbolic-sampling"] = False
+                feats = {"kind": "sample", "minus_grid": ("'control-'" in msg or "'-control'" in msg) and "time points" in msg}
+                self.violation(msg, {"desc": desc}, feats)
+                if not feats["minus_grid"]:
+                    return
+
+    def value_slice(self):
+        n = 10 if self.tier == 'quick' else 100
+        import casadi as ca
+        for _ in range(n):
+            desc = self.gen({'features': {'p': 0.9, 'v': 0.9}, 'obj_kinds': ['at_tf', 'at_t0', 'integral', 'sum']})
+            b = B.build(desc)
+            s = G.symbols(desc)
+            at = s['p'] + s['v'] + [('T',), ('t0',)] + [('ph', i) for i in range(len(desc['phs']))]
+            e = G.poly(self.rng, at, (1, 3), 2)
+            with B.quiet():
+                ve = b.ocp.value(Mo.E.to_casadi(e, b.sym_ph))
+            try:
+                W = Walker(ca.Function('v', [b.opti.x, b.opti.p], [ve]))
+            except RuntimeError as ex:
+                if 'are free' in str(ex):
+                    continue       # a declared variable that is in neither f nor g is not part of opti.x (CasADi)
+                raise
+            xv, pv, fv = En.rand_point(self.rng, b)
+            try:
+                got = W([xv, pv])[0][0]
+                phys = B.eval_phys(b, xv, pv, fv)
+            except (ZeroDivisionError, OverflowError):
+                continue
+            d2 = copy.deepcopy(desc)
+            d2['obj'] = e
+            self.driver.send(Mo.desc_lines(d2)); self.driver.send(Mo.point_lines(d2, phys))
+            mf, _ = Mo.parse_nlp(self.driver.run('obj'))
+            self.evaluations += 1
+            self.count("value()")
+            if not close(mf, got[0], max(got[1], 1.0)):
+                self.slice_ok["value-of-non-signals"] = False
+                self.violation("ocp.value(e) = %s, e at the values of its ingredients = %s (e = %s)" % (float(got[0]), float(mf), Mo.E.to_tokens(e)),
+                               {"desc": desc, "expr": e}, {"kind": "value"})
+                return
+
+    def readback_slice(self):
+        import casadi as ca
+        import numpy as np
+        n = 6 if self.tier == 'quick' else 60
+        for _ in range(n):
+            desc = self.gen({'methods': [('ms', 'rk'), ('dc', 'rk'), ('ss', 'rk')], 'horizon': ['num', 'freeT'], 'features': {'dae': 0.0, 'qstate': 0.0},
+                             'grids': ['uniform', 'geometric'], 'nxs': [2, 3], 'nus': [1, 2], 'Ns': [2, 3], 'Ms': [1, 2]})
+            b = B.build(desc)
+            s = G.symbols(desc)
+            at = s['x'] + s['u'] + [('t',)]
+            r_, c_ = self.rng.choice([(1, 1), (2, 1), (1, 3), (2, 2), (3, 2)])
+            entries = [[G.poly(self.rng, at, (1, 2), 2) for _b in range(c_)] for _a in range(r_)]
+            with B.quiet():
+                for st in b.states:
+                    b.ocp.set_initial(st, ca.DM([self.rng.randint(1, 9) / 4.0 for _ in range(st.numel())]))
+                for u in b.controls:
+                    b.ocp.set_initial(u, ca.DM([self.rng.randint(1, 9) / 4.0 for _ in range(u.numel())]))
+                E_ = ca.vertcat(*[ca.horzcat(*[Mo.E.to_casadi(e, b.sym_base) for e in row]) for row in entries])
+                try:
+                    sol = b.ocp.solve_limited()
+                except Exception:
+                    sol = b.ocp.non_converged_solution
+                gist = np.array(sol.gist).flatten()
+            for gname in ['control', 'integrator'] + (['integrator_roots'] if desc['method']['kind'] == 'dc' else []):
+                with B.quiet():
+                    tn, vn = sol.sample(E_, grid=gname)
+                    ts, vs = b.ocp.sample(E_, grid=gname)
+                    F = ca.Function('f', [b.ocp.gist], [ts, vs])
+                    tv, vv = F(gist)
+                tv = np.array(tv).flatten(); vv = np.array(vv)
+                npts = tv.shape[0]
+                self.evaluations += 1
+                self.count("readback:" + gname)
+                want_shape = (npts,) + tuple(d for d in (r_, c_) if d != 1)
+                if tuple(vn.shape) != want_shape:
+                    self.slice_ok["numeric-readback-and-shapes"] = False
+                    self.violation("sol.sample of a %dx%d expression on %s has shape %s, expected %s" % (r_, c_, gname, vn.shape, want_shape),
+                                   {"desc": desc}, {"kind": "shape"})
+                    return
+                full = np.array(vn).reshape(npts, r_, c_)
+                for i in range(npts):
+                    for a in range(r_):
+                        for bb in range(c_):
+                            w = vv[a, i * c_ + bb]
+                            if not (abs(full[i, a, bb] - w) <= 1e-9 * max(1.0, abs(w))):
+                                self.slice_ok["numeric-readback-and-shapes"] = False
+                                self.violation("sol.sample(...)[%d,%d,%d] = %r but element (%d,%d) of the expression at time %d is %r" % (i, a, bb, full[i, a, bb], a, bb, i, w),
+                                               {"desc": desc}, {"kind": "readback"})
+                                return
+                if not np.allclose(np.array(tn).flatten(), tv, rtol=1e-12, atol=1e-12):
+                    self.slice_ok["numeric-readback-and-shapes"] = False
+                    self.violation("sol.sample time vector differs from the symbolic one", {"desc": desc}, {"kind": "readback-time"})
+                    return
+
+    def dm2numpy_slice(self):
+        import casadi as ca
+        import numpy as np
+        import rockit.casadi_helpers as H
+        count = 0
+        for r_ in range(1, 5):
+            for c_ in range(1, 5):
+                for n in range(1, 7):
+                    blocks = [ca.DM([[1000 * i + 10 * a + bb for bb in range(c_)] for a in range(r_)]) for i in range(n)]
+                    dm = ca.hcat(blocks)
+                    out = H.DM2numpy(dm, (r_, c_), n)
+                    want_shape = (n,) + tuple(d for d in (r_, c_) if d != 1)
+                    flat = np.array(out).flatten()
+                    ok = tuple(out.shape) == want_shape
+                    for i in range(n):
+                        for a in range(r_):
+                            for bb in range(c_):
+                                # Rockit.dm2numpyFlat r c i a b
+                                if ok and flat[(i * r_ + a) * c_ + bb] != 1000 * i + 10 * a + bb:
+                                    ok = False
+                    count += 1
+                    if not ok:
+                        self.slice_ok["DM2numpy-exhaustive"] = False
+                        self.violation("DM2numpy of %dx%d expression, %d time points: wrong layout/shape %s" % (r_, c_, n, out.shape), {"r": r_, "c": c_, "n": n}, {"kind": "dm2numpy"})
+                        return
+        self.evaluations += count
+        self.count("dm2numpy-shapes", count)
+        self.signatures.add("dm2numpy")
